@@ -94,8 +94,9 @@ LOOP_GROUPS = {"C01": (["delta"], "C01.source_scan_sync_is_model / source_scan_a
                "C04": (["plan", "scan"], "C04.source_build_plan_is_model / source_meta_scan_fails_on_a_stat_error / source_meta_scan_is_exact"),
                "C02": (["reconcile", "bidir", "crash", "scan"], "C02.source_apply_is_model / source_run_is_model, C18.source_reconcile_is_model"),
                "C06": (["reconcile", "bidir", "crash", "scan"], "C02.source_apply_is_model / source_run_is_model, C18.source_reconcile_is_model"),
-               "C07": (["reconcile", "bidir", "archive"], "C02.source_apply_is_model / source_run_is_model, C18.source_reconcile_is_model, C07.source_pair_key_is_injective"),
+               "C07": (["reconcile", "bidir", "archive", "scan"], "C02.source_apply_is_model / source_run_is_model, C18.source_reconcile_is_model, C07.source_pair_key_is_injective"),
                "C08": (["reconcile", "bidir", "crash"], "C02.source_apply_is_model / source_run_is_model, C08.source_copy_atomic_is_model / source_archive_save_is_model"),
+               "C14": (["deliver"], "C09.source_deliver_local_is_model / source_deliver_pull_is_model (delivery stamps the source's mtime on a FRESH file)"),
                "C09": (["deliver"], "C09.source_deliver_local_is_model / source_deliver_pull_is_model"),
                "C11": (["hub", "hubput"], "C11.source_safe_join_is_model / source_conflict_name_is_model / source_conflict_name_under_root"),
                "C13": (["hubsync", "hubput"], "C13.source_push_loop_is_model / source_hub_sync_is_model / source_conflict_name_free_or_same"),
